@@ -34,6 +34,21 @@ Proof. exact encode_is_form. Qed.
 Theorem C26_properties : forall pkt m p n, props_of (entries pkt m p n) = norm_props pkt m p n.
 Proof. exact props_of_entries. Qed.
 
+(* What "equivalent" means field by field: the normal form has the type, flags, identifiers, topic,
+   payload, reason codes, filters, subscription options and CONNECT parameters of the packet
+   ([same_fields], by packet type; reason codes and properties only where the protocol version
+   carries them), and its properties are [norm_props]. *)
+Theorem C26_fields_preserved : forall pk rem, wf_packet pk = true ->
+  let q := norm pk rem in
+  pk_version q = pk_version pk /\
+  fh_type (pk_fh q) = fh_type (pk_fh pk) /\ fh_qos (pk_fh q) = fh_qos (pk_fh pk) /\
+  fh_dup (pk_fh q) = fh_dup (pk_fh pk) /\ fh_retain (pk_fh q) = fh_retain (pk_fh pk) /\
+  fh_remaining (pk_fh q) = rem /\
+  same_fields pk q /\
+  ((pk_version pk = 5 \/ fh_type (pk_fh pk) = 15) -> fh_type (pk_fh pk) <> 12 -> fh_type (pk_fh pk) <> 13 ->
+   exists n, pk_props q = norm_props (fh_type (pk_fh pk)) (pk_mods pk) (pk_props pk) n).
+Proof. exact norm_preserves. Qed.
+
 (* Re-encoding, as far as proved: whenever a decoded packet is well-formed and the encoder accepts
    it, the re-encoded bytes decode to its normal form.  PARTIAL: that every packet the decoder
    returns is well-formed (apart from the known finding below) is not proved here; the engine
@@ -79,5 +94,6 @@ Proof. split; [exact (proj1 prefix_ack_drops_reason) | exact (proj1 fixed_ack_ke
 Print Assumptions C26_roundtrip.
 Print Assumptions C26_encodes_permitted_form.
 Print Assumptions C26_properties.
+Print Assumptions C26_fields_preserved.
 Print Assumptions C26_reencode_partial.
 Print Assumptions C26_reencode_refuted.
